@@ -197,9 +197,11 @@ def run(prop, tier, seed):
         if lo == 0 and traces:
             v.cov["samples"].append([desc(e) for e in traces[0]["ev"]])
     v.cov["evaluations"] = len(scen)
-    if prop == "C06":
+    if prop in ("C05", "C06"):
+        # C05 / C06 are anchored in capacity.go too: the real wallet behind the real keeper (SignHash through the keeper,
+        # ordinals and keys in space ids and file names)
         import capacity
-        v.cov["evaluations"] += capacity.keys_through_keeper(v, d, seed, tier)
+        v.cov["evaluations"] += capacity.keys_through_keeper(v, d, seed, tier, prop)
     v.cov["distinct_nontrivial"] = sum(1 for s in scen if nontrivial(s["steps"]))
     v.cov["traces_accepted"] = total_acc
     v.cov["rule"] = ("behaviours generated by TLC (-simulate, seeded) from WalletGen.tla, focus %s: %s; distinct by hash of the action "
